@@ -87,6 +87,7 @@ type Worker struct {
 	intr      map[*ssa.Function]intrinsic
 	jobPaths  int
 	known     map[int]bool
+	allocLimit int
 	reached   []string
 
 	res *HarnessResult // accumulates locally; merged at job end
@@ -589,6 +590,7 @@ func (w *Worker) resetPath() {
 	w.gor = nil
 	w.reached = w.reached[:0]
 	w.known = map[int]bool{}
+	w.allocLimit = 0
 }
 
 func (w *Worker) pathChoices() []int {
@@ -616,7 +618,7 @@ func (w *Worker) modelVector() []VecEntry {
 	for i, e := range w.vector {
 		out[i] = VecEntry{Name: e.Name, node: e.node}
 		if e.term != nil {
-			if v, ok := m[e.Name]; ok && v >= e.term.Lo && v <= e.term.Hi {
+			if v, ok := m[e.Name]; ok && (e.term.S != sym.SInt || (v >= e.term.Lo && v <= e.term.Hi)) {
 				out[i].Val = v
 			} else {
 				// not constrained on this path: any in-range value is consistent
